@@ -75,6 +75,13 @@ CHECKS = {
             "no change, no exception. Held on the executions produced.",
             "unfolded forms are observed from the real unfold_search; '>' searches are cross-compared here and judged against R6 in C09.",
             "differential runtime monitoring across finders + existence reference model + junk fault injection"),
+    "C09": ("exploration", "3 C09",
+            "for generated '>' searches whose observed unfolded forms carry '>' at one index, the result of FindInList, FindInPaths(local, "
+            "server) and FindInAll is compared with R6 (greatest remaining-segment tuple per prefix group) over the independently computed "
+            "match sets, on universes built to make string and segment order disagree; get_last(key) is compared with the same oracle. "
+            "Held on the executions produced.",
+            "searches outside the statement's premise ('>' at different indices in the unfolded forms) are counted and not judged.",
+            "runtime differential monitoring of finders against a reference 'last' model over generated universes"),
 }
 
 NOT_YET = {}
